@@ -115,6 +115,27 @@ def dedup_inserts(b):
             yield pt, t
 
 
+def _helper_callers(f, hb):
+    """call sites of a local non-closure function"""
+    out = []
+    for b in f.body_list:
+        if b.promoted is not None:
+            continue
+        for pt, t in b.calls():
+            c = t.get('callee')
+            if c and (c.get('resolved') or c['path']) == hb.key:
+                out.append((b, pt, t))
+    return out
+
+
+def _is_table_helper(f, b, t):
+    """an insertion into a table the function receives as a parameter, in a plain function that holds no stream callbacks"""
+    if b.d['kind'] == 'Closure' or closure_kind_streams(f, b) or list(callback_calls(b)):
+        return False
+    root = Origins(f, [b]).table_root(b.expr_of_operand(t['args'][0]))
+    return root is not None and root[0] == 'arg'
+
+
 def rule_pair(ctx):
     f = ctx.facts()
     r = RuleResult('PAIR', 'announced indices are dense and announced before use: every insertion into a name/source de-duplication '
@@ -141,6 +162,16 @@ def rule_pair(ctx):
                 if kind in ('source', 'name') and ops and ops[0] == val and b.postdominates(cpt, pt) and \
                         is_outer_callback(f, b, ct, root_key):
                     ann = True
+            if not ann and _is_table_helper(f, b, t):
+                # the allocation lives in a helper: every caller announces the index the helper hands back
+                callers = _helper_callers(f, b)
+                ann = bool(callers)
+                for cb_, cpt_, ct_ in callers:
+                    crk = cb_.d.get('root') or cb_.path
+                    if not any(kind in ('source', 'name') and ops and is_outer_callback(f, cb_, ct2, crk) and cb_.dominates(cpt_, cpt2)
+                               and any(x[0] == 'call' and x[1] == ct_['callee']['path'] for x in walk(ops[0]))
+                               for cpt2, ct2, kind, ops in callback_calls(cb_)):
+                        ann = False
             ok = dense and ann
             r.site('%s: dedup insert (dense=%s, announced=%s)' % (b.path, dense, ann), t['s'], 'ok' if ok else 'violation')
             if not dense:
@@ -171,6 +202,77 @@ def rule_pair(ctx):
                 r.violation('%s:reserve' % b.path, ct['s'], b.path,
                             'a fresh index `len()` is announced but nothing is inserted into that de-duplication map on this path: the '
                             'counter does not advance, the next announced file/name gets the same index and overwrites this one')
+    r.check_floor()
+    return r
+
+
+def _lookup_miss_edge(f, b, pt, mroot):
+    """is pt dominated by the *miss* edge of a test of a lookup (`get` / `contains_key`) in the table `mroot`?"""
+    O = Origins(f, [b])
+    dom = b.dom().get(pt[0], set())
+    for d in dom:
+        t = b.term(d)
+        if t['k'] != 'switch' or t['d']['k'] not in ('copy', 'move'):
+            continue
+        e = b.expr_of_operand(t['d'])
+        looked = [x for x in walk(e) if x[0] == 'call' and x[1].rsplit('::', 1)[-1] in ('get', 'contains_key', 'get_mut') and x[2]
+                  and O.table_root(x[2][0]) == mroot]
+        if not looked:
+            continue
+        zero_t = [x[1] for x in t['targets'] if x[0] == 0]
+        one_t = [x[1] for x in t['targets'] if x[0] == 1]
+        top = e
+        while top[0] in ('cast', 'ref', 'deref'):
+            top = top[1]
+        miss = []
+        if top[0] == 'discr':
+            miss = zero_t or ([t['otherwise']] if one_t else [])
+        elif top[0] == 'call' and top[1].rsplit('::', 1)[-1] == 'is_none':
+            miss = [t['otherwise']] if zero_t else one_t
+        elif top[0] == 'call' and top[1].rsplit('::', 1)[-1] in ('is_some', 'contains_key'):
+            miss = zero_t or ([t['otherwise']] if one_t else [])
+        elif top[0] == 'un' and top[1] == 'Not':
+            miss = [t['otherwise']] if zero_t else one_t
+        for g in miss:
+            if (g == pt[0] or g in dom) and len(b.preds(g)) == 1:
+                return True
+    return False
+
+
+def rule_alloc_dedup(ctx):
+    f = ctx.facts()
+    r = RuleResult('ALLOC-DEDUP', 'a file / name gets one index: every allocation of a fresh index (an insertion of `len()` into a '
+                                  'name/source de-duplication map) happens only on the miss edge of a lookup in that same map: '
+                                  're-inserting a present key does not grow the map, so the next `len()` would repeat an index '
+                                  'that was already announced')
+    r.floor = 8
+    for b in f.body_list:
+        if b.promoted is not None:
+            continue
+        O = Origins(f, [b])
+        for pt, t in dedup_inserts(b):
+            val = b.expr_of_operand(t['args'][2])
+            m = O.table_root(b.expr_of_operand(t['args'][0]))
+            dense = any(x[0] == 'call' and x[1].rsplit('::', 1)[-1] == 'len' and x[2] and O.table_root(x[2][0]) == m
+                        for x in strip(val, through_calls=set()))
+            if not dense:
+                continue                      # not an allocation (PAIR reports non-dense insertions)
+            ok = _lookup_miss_edge(f, b, pt, m)
+            r.site('%s: fresh index allocated on a lookup miss' % b.path, t['s'], 'ok' if ok else 'violation')
+            if _is_table_helper(f, b, t):
+                for cb_, cpt_, ct_ in _helper_callers(f, b)[1:]:      # one allocation site per user of the helper
+                    r.site('%s: allocates through %s' % (cb_.path, b.path), ct_['s'], 'ok' if ok else 'violation')
+            if not ok:
+                r.violation('%s:unguarded' % b.path, t['s'], b.path,
+                            'a fresh index is allocated and stored without a failed lookup of the key in that map on the way: a '
+                            'key that is already in the map is re-inserted without growing it, so the next fresh index `len()` collides '
+                            'with one already announced and two files / names share one index')
+        # the entry API allocates on a miss by construction
+        for pt, t in b.calls():
+            c = t.get('callee')
+            if c and c['name'] in ('insert', 'or_insert', 'or_insert_with', 'insert_entry') and t['args'] and \
+                    ('Entry<' in t['arg_tys'][0]) and 'std::borrow::Cow<' in t['arg_tys'][0] and ', u32' in t['arg_tys'][0]:
+                r.site('%s: fresh index allocated through the entry API (vacant by construction)' % b.path, t['s'], 'ok')
     r.check_floor()
     return r
 
@@ -1497,6 +1599,61 @@ def rule_combine_when_inner(ctx):
                             'the choice between combined and plain streaming depends on `%s` after %s: a source that was given an inner '
                             'map is treated as if it had none under some condition (its segments are then neither re-attributed nor '
                             'removed, and the supplied original source is not reported)' % (fld, ', '.join('`%s`' % x for x in bad)))
+    # the removal request reaches the combinator as stored: a bool argument of the combinator call that reads a bool field of the
+    # source is that field and nothing else (no conjunction with other state)
+    bool_fields = [fl['name'] for fl in anchors.fields(adt) if fl['ty'] == 'bool']
+    for b in bodies:
+        for pt, t in b.calls():
+            c = t.get('callee')
+            hb = f.body(c.get('resolved') or c['path']) if c else None
+            if hb is None or hb.d['kind'] == 'Closure' or not closure_kind_streams(f, hb):
+                continue
+            for i, a in enumerate(t['args']):
+                if (t.get('arg_tys') or [])[i:i + 1] != ['bool'] or a['k'] not in ('copy', 'move'):
+                    continue
+                e = b.expr_of_operand(a)
+                top = e
+                while top[0] in ('ref', 'deref'):
+                    top = top[1]
+                ok = top[0] == 'field' and top[3] == adt['path'] and top[2] in bool_fields
+                pname = hb.local_name(i + 1) or ('#%d' % (i + 1))
+                r.site('%s: flag `%s` of %s is a stored field of the source, as stored' % (b.path, pname, hb.path), t['s'],
+                       'ok' if ok else 'violation')
+                if not ok:
+                    r.violation('%s:flag:%s' % (b.path, pname), t['s'], b.path,
+                                'the flag `%s` handed to the combinator is not the request stored in the source but a value derived '
+                                'from other state: under that state a requested removal is not carried out (or an unrequested one '
+                                'is)' % pname)
+    r.check_floor()
+    return r
+
+
+def rule_prefix_direction(ctx):
+    """the recorded original text must start with the streamed text, not the other way round"""
+    f = ctx.facts()
+    r = RuleResult('PREFIX-DIRECTION', 'where a piece of recorded original content (a `WithIndices::substring` of a sourcesContent line) '
+                                       'is compared with streamed text by `starts_with`, the recorded content is the haystack and the '
+                                       'streamed text the needle: with the roles swapped a recorded line that ends early is a prefix of '
+                                       'the expected text and the check passes although the contents differ')
+    r.floor = 0
+    for b in f.body_list:
+        if b.promoted is not None:
+            continue
+        for pt, t in b.calls():
+            c = t.get('callee')
+            if not c or c['name'] != 'starts_with' or len(t['args']) != 2 or not c.get('local'):
+                continue
+            es = [b.expr_of_operand(a) for a in t['args']]
+            der = [any(x[0] == 'call' and x[1].rsplit('::', 1)[-1] == 'substring' and 'WithIndices' in x[1] for x in walk(e)) for e in es]
+            if der[0] == der[1]:
+                continue
+            ok = der[0]
+            r.site('%s: recorded content is the haystack of starts_with' % b.path, t['s'], 'ok' if ok else 'violation')
+            if not ok:
+                r.violation('%s:swapped' % b.path, t['s'], b.path,
+                            'the streamed text is tested for starting with the recorded content: when the recorded line has fewer '
+                            'characters left than the streamed text (the substring is cut at the line end) the test passes although the '
+                            'texts differ, and the original column is advanced past the end of the original line')
     r.check_floor()
     return r
 
